@@ -22,6 +22,8 @@ struct Round {
     mgr_emitted: usize,
     dropped: [bool; 3],
     blocked: [bool; 3],
+    cid: usize,
+    suspended_reports: usize,
 }
 
 impl Round {
@@ -43,7 +45,12 @@ impl Round {
             self.emitted[q] = r.inboxes[q].len();
         }
         for cid in &r.manager[self.mgr_emitted..] {
-            self.out.push(json!({"e": "app_closed", "n": "A", "cid": cid}));
+            if *cid == self.cid {
+                self.out.push(json!({"e": "app_closed", "n": "A", "cid": cid}));
+            } else {
+                // a report of another connection that was already waiting in the manager's channel
+                self.out.push(json!({"e": "mgr_other", "n": "A", "cid": -1}));
+            }
         }
         self.mgr_emitted = r.manager.len();
         if snap {
@@ -53,7 +60,7 @@ impl Round {
                 .filter(|q| !self.dropped[*q] && !self.blocked[*q] && !r.inboxes[*q].iter().any(|e| matches!(e, InboxEvent::Closed { .. })))
                 .map(|q| Q[q])
                 .collect();
-            self.out.push(json!({"e": "snap", "n": "A", "mgr": !r.manager.is_empty(), "untold": untold, "polls": r.polls}));
+            self.out.push(json!({"e": "snap", "n": "A", "mgr": r.manager.contains(&self.cid), "untold": untold, "polls": r.polls}));
         }
     }
 
@@ -120,6 +127,25 @@ impl Round {
                 self.out.push(json!({"e": "resume", "n": "A", "q": Q[q]}));
                 self.flush(false);
             }
+            "mfill" => {
+                // the manager loop is stalled and its event channel is full
+                self.flush(false);
+                let n = self.h.fill_manager();
+                self.out.push(json!({"e": "mgr_full", "n": "A", "filler": n}));
+            }
+            "munblock" => {
+                // before the manager reads again: the close report must be suspended on the full channel -
+                // every running protocol already told, the manager not yet, the task not returned
+                let r = self.h.report();
+                let told = (0..3).filter(|q| !self.dropped[*q] && !self.blocked[*q]).all(|q| r.inboxes[q].iter().any(|e| matches!(e, InboxEvent::Closed { .. })));
+                let suspended = told && r.finished.is_none();
+                if suspended {
+                    self.suspended_reports += 1;
+                }
+                self.out.push(json!({"e": "mgr_resume", "n": "A", "report_suspended": suspended, "protocols_told": told, "task_returned": r.finished.is_some()}));
+                self.h.unblock_manager();
+                self.flush(false);
+            }
             "sleep" => tokio::time::sleep(Duration::from_millis(st["ms"].as_u64().unwrap_or(30))).await,
             "run" => {
                 let polls = st["polls"].as_u64().map(|p| p as usize);
@@ -159,15 +185,19 @@ async fn run_round(sc: &Value) -> Result<Vec<Value>, String> {
         protocols: 3,
         inbox_capacity: sc["inbox"].as_u64().unwrap_or(16) as usize,
         substream_open_timeout: Duration::from_millis(sc["sub_timeout_ms"].as_u64().unwrap_or(300)),
+        manager_capacity: sc["manager_capacity"].as_u64().unwrap_or(256) as usize,
     })
     .await?;
     let cid = h.connection_id();
-    let mut r = Round { h, out: vec![], emitted: vec![0; 3], mgr_emitted: 0, dropped: [false; 3], blocked: [false; 3] };
+    let mut r = Round { h, out: vec![], emitted: vec![0; 3], mgr_emitted: 0, dropped: [false; 3], blocked: [false; 3], cid, suspended_reports: 0 };
     r.out.push(json!({"e": "app_est", "n": "A", "cid": cid, "dir": "in"}));
     r.flush(false);
     for st in sc["steps"].as_array().unwrap() {
         r.out.push(json!({"e": "step", "op": st["op"], "arg": st}));
         r.step(st).await;
+    }
+    if r.suspended_reports > 0 {
+        r.out.push(json!({"e": "note", "suspended_reports": r.suspended_reports}));
     }
     Ok(r.out)
 }
@@ -200,6 +230,7 @@ fn main() {
     let mut lines = vec![];
     let (mut rounds, mut failed, mut events, mut panics) = (0usize, 0usize, 0usize, 0usize);
     let mut exits: std::collections::BTreeMap<String, usize> = Default::default();
+    let mut suspended = 0usize;
     for r in results {
         match r {
             Ok((sc, Ok(ls))) => {
@@ -207,6 +238,7 @@ fn main() {
                 *exits.entry(sc["exit"].as_str().unwrap_or("?").to_string()).or_default() += 1;
                 lines.push(json!({"e": "reset", "sc": sc["name"], "transport": "unit", "exit": sc["exit"], "seed": sc["seed"], "protos": {"A": Q, "B": []}}).to_string());
                 events += ls.len();
+                suspended += ls.iter().filter(|l| l["e"] == "mgr_resume" && l["report_suspended"] == true).count();
                 for l in ls {
                     lines.push(l.to_string());
                 }
@@ -216,5 +248,5 @@ fn main() {
         }
     }
     write_lines(&out, &lines);
-    println!("SUMMARY {}", json!({"rounds": rounds, "setup_failed": failed, "events": events, "panics": panics, "rounds_by_exit": exits}));
+    println!("SUMMARY {}", json!({"rounds": rounds, "setup_failed": failed, "events": events, "panics": panics, "rounds_by_exit": exits, "close_reports_suspended_on_full_manager_channel": suspended}));
 }
